@@ -17,6 +17,7 @@ package helper
 func Map[F, T any](c <-chan F, f func(F) T) <-chan T {
 	mc := make(chan T)
 
+	VerifStage("Map", 0, []any{c}, []any{mc})
 	go func() {
 		defer close(mc)
 
